@@ -142,7 +142,7 @@ def side(text, bg):
 def pair_classes(rnd, n, large=None, vr=None):
     """Yield (class, text, bg) triples, n of them, stratified."""
     classes = ["uniform", "near", "near", "hair", "grey", "named", "equal", "bw_bg",
-               "mid_light", "mid_dark", "below", "below"]
+               "mid_light", "mid_dark", "below", "below", "websafe"]
     out = []
     i = 0
     while len(out) < n:
@@ -163,6 +163,12 @@ def pair_classes(rnd, n, large=None, vr=None):
             out.append((c, grey(rnd), grey(rnd)))
         elif c == "named":
             out.append((c, named(rnd)[1], named(rnd)[1]))
+        elif c == "websafe":
+            # colours people actually type: web-safe lattice, primaries/secondaries, 0/128/255 mixes, near-white and near-black
+            lat = [0, 51, 102, 153, 204, 255] if rnd.random() < 0.6 else [0, 128, 255, 1, 254, 127]
+            t = tuple(rnd.choice(lat) for _ in range(3))
+            b = tuple(rnd.choice(lat) for _ in range(3)) if rnd.random() < 0.7 else rnd.choice([BLACK, WHITE, (255, 255, 254), (1, 1, 1), (250, 250, 250)])
+            out.append((c, t, b))
         elif c == "equal":
             t = uniform(rnd)
             b = t if rnd.random() < 0.5 else tuple(min(255, max(0, v + rnd.randrange(-6, 7))) for v in t)
